@@ -147,7 +147,8 @@ def clones(method, objective_kind, ode_t=False):
     tmpl = Spec(method=method, N=2, M=1, degree=2, T=("fixed", 1.0), t0=("fixed", 0.0), states=[2], params={"": [1]},
                 ode=E("f", None, ("x", "u", "t", "p") if ode_t else ("x", "u", "p")),
                 constraints=[Con(E("c1", 1, ("x", "u", "t", "T", "t0")), "le", 1.0), Con(E("b0", 2, (("at", "t0", "x"),)), "eq", 0.0),
-                             Con(E("bf", 1, (("at", "tf", "x"), "p")), "le", 3.0)],
+                             Con(E("bf", 1, (("at", "tf", "x"), "p")), "le", 3.0),
+                                 Con(E("ci", 1, ("x", "u", "p")), "le", 2.0, grid="integrator")],
                 objective=obj, initial=[(("x", 0), ("unknown", "gx", 2, 1))])
     tmpl.build(template=True)
     template = tmpl.ocp
